@@ -528,7 +528,14 @@ def run_inventory(R, rid, root_name, desc, restrict=None):
             if restrict is None or restrict(s):
                 all_sites.append(s)
     by_key = defaultdict(list)
+    seen_inl = set()
     for s in all_sites:
+        # a helper inlined at several call sites yields one copy of its sites per call site: they are one site of the source
+        if s.fn.blocks[s.bb].get("inl"):
+            ident = (s.key, s.file, s.line)
+            if ident in seen_inl:
+                continue
+            seen_inl.add(ident)
         by_key[s.key].append(s)
     for key in sorted(by_key):
         ss = by_key[key]
